@@ -1,13 +1,16 @@
 """C19 - inbound RTP reaches only the right receiver; bridged streams stay continuous.
 
-Demux.tla / Bridge.tla are checked by TLC (the properties must hold with the open deviations off) and
-every TLC-generated case is replayed on a real RtpTransport (clear RTP mode, public API only):
- * demux: every (registry state, packet) edge of the bounded model; the listeners that received the
-   packet are compared with the outcomes the statement allows;
- * bridge: every bounded behaviour of the rewrite bridge; the datagrams read back at the target's peer
-   socket are compared field by field with the model's output.
+Demux.tla / Bridge.tla are checked by TLC (the properties must hold with Deviations = {}) and every
+TLC-generated case is replayed on a real RtpTransport (clear RTP mode, public API only):
+ * demux, G-edge: every (registry state, packet) edge of the bounded model, with a shortest history that
+   reaches the state, PLUS probe edges: after every transition that forgets something (clear_listeners,
+   removal of a closed listener, pruning, re-registration, list replacement, re-binding) and after every
+   packet some branch took, all packets are probed with the history *through* that transition;
+ * demux, G-sim: TLC -simulate prints every out-edge of every state on random deep paths, each with its
+   real, unmerged history;
+ * bridge, G-bounded: every bounded behaviour of the rewrite bridge (no state merging); the datagrams read
+   back at the target's peer socket are compared field by field with the model's output.
 """
-import hashlib
 import json
 import os
 import threading
@@ -19,18 +22,27 @@ NSHARD = 6
 
 # deviations of the code that the generator model follows (so that replay states stay aligned): none -
 # both deviations found on the pinned tree (KF-C19-1, KF-C19-2) are fixed in /repo
-GEN_DEVIATIONS = '{}'
+GEN_DEVIATIONS = "{}"
 
+D3 = dict(Ls="{1, 2, 3}", Ssrcs="{1, 2}", Pts="{1, 2}", Mids="{1, 2}", Rids="{1}", Ext="ExtBoth")
+D2 = dict(Ls="{1, 2}", Ssrcs="{1, 2}", Pts="{1, 2}", Mids="{1, 2}", Rids="{1}", Ext="ExtBoth")
+
+# label -> constants; Probe / PktProbe = longest history (incl. the transition) that gets probe edges;
+# sim = (behaviours, depth) turns the run into a simulation pass (no probes: histories are real anyway)
 DEMUX_CFG = {
     "quick": [
-        ("L3/len4", dict(Ls="{1, 2, 3}", Ssrcs="{1, 2}", Pts="{1, 2}", Mids="{1, 2}", Rids="{1}", Ext="ExtBoth", MaxLen=4)),
-        ("L2/len6", dict(Ls="{1, 2}", Ssrcs="{1, 2}", Pts="{1, 2}", Mids="{1, 2}", Rids="{1}", Ext="ExtBoth", MaxLen=6, Probe=4)),
-        ("L2/ext/len4", dict(Ls="{1, 2}", Ssrcs="{1}", Pts="{1, 2}", Mids="{1, 2}", Rids="{1}", Ext="ExtAll", MaxLen=4)),
+        ("L3/len4", dict(D3, MaxLen=4, Probe=3, PktProbe=2)),
+        ("L2/len5", dict(D2, MaxLen=5, Probe=4, PktProbe=3)),
+        ("L2/ext/len4", dict(D2, Ssrcs="{1}", Ext="ExtAll", MaxLen=4, Probe=3, PktProbe=3)),
+        ("L3/sim", dict(D3, MaxLen=12, Probe=0, PktProbe=0, sim=(250, 12))),
     ],
     "thorough": [
-        ("L3/len5", dict(Ls="{1, 2, 3}", Ssrcs="{1, 2}", Pts="{1, 2}", Mids="{1, 2}", Rids="{1}", Ext="ExtBoth", MaxLen=5)),
-        ("L2/full", dict(Ls="{1, 2}", Ssrcs="{1, 2}", Pts="{1, 2}", Mids="{1, 2}", Rids="{1}", Ext="ExtBoth", MaxLen=40, Probe=5)),
-        ("L3/ext/len4", dict(Ls="{1, 2, 3}", Ssrcs="{1, 2}", Pts="{1, 2}", Mids="{1, 2}", Rids="{1, 2}", Ext="ExtAll", MaxLen=4)),
+        ("L3/len5", dict(D3, MaxLen=5, Probe=4, PktProbe=3)),
+        ("L2/len6", dict(D2, MaxLen=6, Probe=5, PktProbe=4)),
+        ("L2/full", dict(D2, MaxLen=40, Probe=0, PktProbe=0)),
+        ("L3/ext/len4", dict(D3, Rids="{1, 2}", Ext="ExtAll", MaxLen=4, Probe=3, PktProbe=2)),
+        ("L3/sim", dict(D3, MaxLen=16, Probe=0, PktProbe=0, sim=(3000, 16))),
+        ("L3/ext/sim", dict(D3, Rids="{1, 2}", Ext="ExtAll", MaxLen=20, Probe=0, PktProbe=0, sim=(1500, 20))),
     ],
 }
 
@@ -49,7 +61,8 @@ CONSTANTS
   Rids = {c['Rids']}
   ExtCfgs <- {c['Ext']}
   MaxLen = {c['MaxLen']}
-  ProbeMaxLen = {c.get('Probe', c['MaxLen'] - 1)}
+  ProbeMaxLen = {c.get('Probe', 0)}
+  PktProbeMaxLen = {c.get('PktProbe', 0)}
   Deviations = {deviations}
 VIEW view
 INVARIANTS TypeOK
@@ -57,176 +70,6 @@ PROPERTIES {props}
 ACTION_CONSTRAINT {'EmitPkt' if emit else 'NoEmit'}
 CHECK_DEADLOCK FALSE
 """)
-
-
-def sig_of(sub, d):
-    cls = d.get("cls") or {}
-    s = {"sub": sub, "rule": d.get("rule"), "field": d.get("field")}
-    if sub == "demux":
-        s.update(by=cls.get("by"), closedHit=cls.get("closedHit"), ambiguousPt=(cls.get("holders", 0) >= 2),
-                 identified=cls.get("identified"))
-    else:
-        s.update(first=d.get("first"), cont=d.get("cont"))
-    return s
-
-
-def run_sharded(mode, inp, out_prefix, nshard, timeout):
-    """Run the harness binary on `inp` in nshard worker processes; return all output rows."""
-    outs = [f"{out_prefix}.{i}.ndjson" for i in range(nshard)]
-    errs = [None] * nshard
-
-    def work(i):
-        try:
-            p = vlib.run_bin(BIN, [mode, inp, outs[i], f"{i}/{nshard}"], timeout=timeout)
-            if p.returncode != 0:
-                errs[i] = f"rc={p.returncode}: {p.stderr[-1500:]}"
-        except vlib.ToolError as e:
-            errs[i] = str(e)
-
-    th = [threading.Thread(target=work, args=(i,)) for i in range(nshard)]
-    for t in th:
-        t.start()
-    for t in th:
-        t.join()
-    bad = [e for e in errs if e]
-    if bad:
-        raise vlib.ToolError(f"{BIN} {mode} replayer failed: {bad[0]}")
-    rows = []
-    for o in outs:
-        rows += vlib.read_ndjson(o)
-        os.remove(o)
-    return rows
-
-
-def absorb(ck, sub, rows):
-    """Turn replayer rows into divergences / drift; return the merged summary."""
-    summ = {}
-    for r in rows:
-        t = r.get("type")
-        if t == "summary":
-            for k, v in r.items():
-                if isinstance(v, (int, float)) and not isinstance(v, bool):
-                    summ[k] = summ.get(k, 0) + v
-        elif t == "divergence":
-            if r.get("rule") == "EXT":
-                ck.drift.append({"sub": sub, "field": r.get("field"), "allowed": r.get("allowed"),
-                                 "observed": r.get("observed"), "step": r.get("step")})
-            else:
-                ck.divergence(sig_of(sub, r), r)
-        elif t == "drift":
-            ck.drift.append({"sub": sub, "kind": r.get("kind", "exact-choice"), "expected": r.get("expected"),
-                             "observed": r.get("observed"), "pre": r["case"].get("pre"), "act": r["case"].get("act")})
-    return summ
-
-
-def tlc_jobs(tier):
-    """All TLC runs of a tier (design check + generator in one run each); executed concurrently because an
-    emission run is single-worker by convention."""
-    jobs = []
-    for label, consts in DEMUX_CFG[tier]:
-        jobs.append(dict(sub="demux", label=label, consts=consts, module="MC_Demux", tagname="EDGE"))
-    for label, consts in BRIDGE_CFG[tier]:
-        jobs.append(dict(sub="bridge", label=label, consts=consts, module="MC_Bridge", tagname="CASE"))
-    return jobs
-
-
-def run_tlc_job(ck, tier, j):
-    tag = j["label"].replace("/", "_")
-    cfg = os.path.join(vlib.SPEC, f"{j['module']}_{tier}_{tag}.gen.cfg")
-    if j["sub"] == "demux":
-        write_demux_cfg(cfg, j["consts"], emit=True)
-    else:
-        write_bridge_cfg(cfg, j["consts"], emit=True)
-    j["out"] = os.path.join(ck.dir, f"{j['sub']}_{tier}_{tag}.ndjson")
-    try:
-        j["res"] = vlib.tlc(j["module"], os.path.basename(cfg), tags=(j["tagname"],), sinks={j["tagname"]: j["out"]},
-                            timeout=3000 if tier == "thorough" else 900, heap="8g" if tier == "thorough" else "4g",
-                            tag=f"{j['module']}_{tier}_{tag}")
-    except Exception as e:  # reported by the caller (threads must not lose it)
-        j["err"] = e
-    finally:
-        try:
-            os.remove(cfg)
-        except OSError:
-            pass
-
-
-def demux_part(ck, tier, nontrivial, jobs):
-    total = 0
-    exhaustive = True
-    for j in jobs:
-        if j["sub"] != "demux":
-            continue
-        label, res, edges = j["label"], j["res"], j["out"]
-        tag = label.replace("/", "_")
-        vlib.tlc_ok(res, f"demux {label}")
-        ck.add_tlc(res, f"demux {label}")
-        rows = run_sharded("demux", edges, os.path.join(ck.dir, f"demux_replay_{tier}_{tag}"), NSHARD,
-                           timeout=3000 if tier == "thorough" else 900)
-        summ = absorb(ck, "demux", rows)
-        total += summ.get("edges", 0)
-        exhaustive = exhaustive and res["finished"] and summ.get("edges", 0) == res["counts"]["EDGE"]
-        ck.notes.append(f"demux {label}: edges={summ.get('edges')} steps={summ.get('steps')} "
-                        f"deliveries={summ.get('deliveries')} panics={summ.get('panics')} "
-                        f"exact-choice drift={summ.get('drift')} unregistered-deliveries={summ.get('unreg')}")
-        with open(edges) as f:
-            for i, line in enumerate(f):
-                # non-trivial = the packet meets at least one registration (some branch of the chain fires,
-                # a closed listener is hit, or the payload type is claimed)
-                if '"by":"none"' not in line or '"holders":0' not in line:
-                    nontrivial.add(hashlib.blake2b(line.encode(), digest_size=8).digest())
-                if i % 20011 == 7 and len(ck.cov["samples"]) < 6:
-                    e = json.loads(line)
-                    ck.cov["samples"].append({"sub": "demux", "pre": e["pre"], "act": e["act"], "allowed": e["exp"],
-                                              "model": e["ext"], "cls": e["cls"]})
-        if tier == "thorough":
-            os.remove(edges)
-    return total, exhaustive
-
-
-def run(tier):
-    ck = vlib.Check(PID, tier)
-    vlib.build_harness([BIN])
-    nontrivial = set()
-    jobs = tlc_jobs(tier)
-    sem = threading.Semaphore(6 if tier == "quick" else 4)
-
-    def work(j):
-        with sem:
-            run_tlc_job(ck, tier, j)
-
-    th = [threading.Thread(target=work, args=(j,)) for j in jobs]
-    for t in th:
-        t.start()
-    for t in th:
-        t.join()
-    for j in jobs:
-        if "err" in j:
-            raise j["err"]
-    n_demux, ex_demux = demux_part(ck, tier, nontrivial, jobs)
-    n_bridge, ex_bridge = bridge_part(ck, tier, nontrivial, jobs)
-    ck.cov["traces_validated_against_impl"] = n_demux + n_bridge
-    ck.cov["evaluations"] = n_demux + n_bridge
-    ck.cov["distinct_nontrivial"] = len(nontrivial)
-    ck.cov["exhaustive"] = bool(ex_demux and ex_bridge)
-    ck.cov["rule"] = (
-        "demux: every (registry state, inbound packet) edge of the bounded Demux model (registrations by SSRC / RID / "
-        "MID / payload-type list / single payload type / provisional, listener channel closed, clear_listeners; packet = "
-        "SSRC x PT x RID? x MID?) is executed on a fresh RtpTransport by replaying a shortest history that reaches the "
-        "state; the set of listener channels holding the packet afterwards must be one of the outcomes the statement "
-        "allows. bridge: every bounded behaviour of Bridge.tla (rule tables x interleaved sources x timestamp-delta "
-        "alphabet incl. the 900000 / 2^31 boundaries and u32/u16 wrap) is pushed through a real bridge and the datagrams "
-        "read at the target's peer socket are compared with the model (SSRC, PT, sequence, timestamp). non-trivial = the "
-        "packet meets at least one registration (demux) / the behaviour has at least two packets of one source (bridge)")
-    ck.assumptions += [
-        "bounded: listeners/SSRCs/PTs/MIDs/RIDs and history length as listed in tlc_runs; larger registries are not explored",
-        "RtpTransport.receive is called sequentially (one socket read loop per connection); no concurrent registration",
-        "clear RTP mode (no SRTP session, srtp_required = false); the SRTP gate is property C14",
-        "listener channels are drained after every step: the 'channel full' drop is not exercised in the edge cover",
-        "demux: 'nothing delivered' is read from the listener channels right after the awaited receive() returns (no timeout)",
-        "bridge: output observed on loopback UDP; a sentinel datagram through the same socket pair delimits each behaviour",
-    ]
-    ck.finish()
 
 
 BRIDGE_CFG = {
@@ -272,34 +115,204 @@ CHECK_DEADLOCK FALSE
 """)
 
 
-def bridge_part(ck, tier, nontrivial, jobs):
+def sig_of(sub, d):
+    cls = d.get("cls") or {}
+    s = {"sub": sub, "rule": d.get("rule"), "field": d.get("field")}
+    if sub == "demux":
+        s.update(by=cls.get("by"), closedHit=cls.get("closedHit"), ambiguousPt=(cls.get("holders", 0) >= 2),
+                 identified=cls.get("identified"))
+    else:
+        s.update(first=d.get("first"), cont=d.get("cont"))
+    return s
+
+
+def run_sharded(mode, inp, out_prefix, nshard, timeout, hashes=None):
+    """Run the harness binary on `inp` in nshard worker processes; return all output rows."""
+    outs = [f"{out_prefix}.{i}.ndjson" for i in range(nshard)]
+    errs = [None] * nshard
+
+    def work(i):
+        try:
+            p = vlib.run_bin(BIN, [mode, inp, outs[i], f"{i}/{nshard}"], timeout=timeout)
+            if p.returncode != 0:
+                errs[i] = f"rc={p.returncode}: {p.stderr[-1500:]}"
+        except vlib.ToolError as e:
+            errs[i] = str(e)
+
+    th = [threading.Thread(target=work, args=(i,)) for i in range(nshard)]
+    for t in th:
+        t.start()
+    for t in th:
+        t.join()
+    bad = [e for e in errs if e]
+    rows = []
+    for o in outs:
+        if os.path.exists(o) and not bad:
+            rows += vlib.read_ndjson(o)
+        hp = o + ".hashes"
+        if os.path.exists(hp):
+            if hashes is not None and not bad:
+                with open(hp, "rb") as f:
+                    b = f.read()
+                hashes.update(b[k:k + 8] for k in range(0, len(b), 8))
+            os.remove(hp)
+        if os.path.exists(o):
+            os.remove(o)
+    if bad:
+        raise vlib.ToolError(f"{BIN} {mode} replayer failed: {bad[0]}")
+    return rows
+
+
+def absorb(ck, sub, rows):
+    """Turn replayer rows into divergences / drift; return the merged summary."""
+    summ = {}
+    for r in rows:
+        t = r.get("type")
+        if t == "summary":
+            for k, v in r.items():
+                if isinstance(v, (int, float)) and not isinstance(v, bool):
+                    summ[k] = summ.get(k, 0) + v
+        elif t == "divergence":
+            if r.get("rule") == "EXT":
+                ck.drift.append({"sub": sub, "field": r.get("field"), "allowed": r.get("allowed"),
+                                 "observed": r.get("observed"), "step": r.get("step")})
+            else:
+                ck.divergence(sig_of(sub, r), r)
+        elif t == "drift":
+            ck.drift.append({"sub": sub, "kind": r.get("kind", "exact-choice"), "expected": r.get("expected"),
+                             "observed": r.get("observed"), "pre": r["case"].get("pre"), "act": r["case"].get("act")})
+    return summ
+
+
+def tlc_jobs(tier):
+    """All TLC runs of a tier (design check + generator in one run each); executed concurrently because an
+    emission run is single-worker by convention."""
+    jobs = []
+    for label, consts in DEMUX_CFG[tier]:
+        jobs.append(dict(sub="demux", label=label, consts=consts, module="MC_Demux", tagname="EDGE"))
+    for label, consts in BRIDGE_CFG[tier]:
+        jobs.append(dict(sub="bridge", label=label, consts=consts, module="MC_Bridge", tagname="CASE"))
+    return jobs
+
+
+def run_tlc_job(ck, tier, j):
+    tag = j["label"].replace("/", "_")
+    cfg = os.path.join(vlib.SPEC, f"{j['module']}_{PID}_{tier}_{tag}.gen.cfg")
+    if j["sub"] == "demux":
+        write_demux_cfg(cfg, j["consts"], emit=True)
+    else:
+        write_bridge_cfg(cfg, j["consts"], emit=True)
+    j["out"] = os.path.join(ck.dir, f"{j['sub']}_{tier}_{tag}.ndjson")
+    sim = j["consts"].get("sim")
+    try:
+        j["res"] = vlib.tlc(j["module"], os.path.basename(cfg), tags=(j["tagname"],), sinks={j["tagname"]: j["out"]},
+                            timeout=3000 if tier == "thorough" else 900, heap="8g" if tier == "thorough" else "4g",
+                            tag=f"{j['module']}_{PID}_{tier}_{tag}",
+                            simulate=sim[0] if sim else None, depth=sim[1] if sim else None)
+    except Exception as e:  # reported by the caller (threads must not lose it)
+        j["err"] = e
+    finally:
+        try:
+            os.remove(cfg)
+        except OSError:
+            pass
+
+
+def consume(ck, tier, j, nontrivial):
+    """Replay one generated file on the implementation, fold the result into the check, delete the file."""
+    sub, label, res, path = j["sub"], j["label"], j["res"], j["out"]
+    tag = label.replace("/", "_")
+    sim = j["consts"].get("sim")
+    try:
+        if res.get("timeout") or res["errors"] or res["rc"] != 0:
+            vlib.tlc_ok(res, f"{sub} {label}")   # raises ToolError with TLC's output
+        ck.add_tlc(res, f"{sub} {label}")
+        rows = run_sharded(sub, path, os.path.join(ck.dir, f"{sub}_replay_{tier}_{tag}"), NSHARD,
+                           timeout=3000 if tier == "thorough" else 900, hashes=nontrivial)
+        summ = absorb(ck, sub, rows)
+        emitted = res["counts"]["EDGE" if sub == "demux" else "CASE"]
+        if sub == "demux":
+            n = summ.get("edges", 0)
+            complete = summ.get("lines", 0) == emitted
+            ck.notes.append(f"demux {label}: lines={summ.get('lines')} edges={n} steps={summ.get('steps')} "
+                            f"deliveries={summ.get('deliveries')} panics={summ.get('panics')} "
+                            f"exact-choice drift={summ.get('drift')}")
+        else:
+            n = summ.get("cases", 0)
+            complete = n == emitted
+            ck.notes.append(f"bridge {label}: behaviours={n} packets={summ.get('steps')} "
+                            f"panics={summ.get('panics')} ext-drift={summ.get('drift')}")
+        if not complete:
+            raise vlib.ToolError(f"{sub} {label}: replayed {summ} but TLC emitted {emitted}")
+        with open(path) as f:
+            for i, line in enumerate(f):
+                if i % 20011 == 7 and len(ck.cov["samples"]) < 12:
+                    e = json.loads(line)
+                    if sub == "demux" and "probes" not in e:
+                        ck.cov["samples"].append({"sub": "demux", "gen": label, "pre": e["pre"], "act": e["act"],
+                                                  "allowed": e["exp"], "model": e["ext"], "cls": e["cls"]})
+                    elif sub == "bridge":
+                        ck.cov["samples"].append({"sub": "bridge", "gen": label, "cfg": e["cfg"], "steps": e["steps"]})
+        exhaustive = bool(res["finished"]) and complete and not sim
+        return n, exhaustive
+    finally:
+        try:
+            os.remove(path)      # edge lists are large; a violation record carries its own case
+        except OSError:
+            pass
+
+
+def run(tier):
+    ck = vlib.Check(PID, tier)
+    vlib.build_harness([BIN])
+    nontrivial = set()
+    jobs = tlc_jobs(tier)
+    sem = threading.Semaphore(7 if tier == "quick" else 5)
+
+    def work(j):
+        with sem:
+            run_tlc_job(ck, tier, j)
+
+    th = [threading.Thread(target=work, args=(j,)) for j in jobs]
+    for t in th:
+        t.start()
+    for t in th:
+        t.join()
+    for j in jobs:
+        if "err" in j:
+            raise j["err"]
     total = 0
     exhaustive = True
     for j in jobs:
-        if j["sub"] != "bridge":
-            continue
-        label, res, cases = j["label"], j["res"], j["out"]
-        tag = label.replace("/", "_")
-        vlib.tlc_ok(res, f"bridge {label}")
-        ck.add_tlc(res, f"bridge {label}")
-        rows = run_sharded("bridge", cases, os.path.join(ck.dir, f"bridge_replay_{tier}_{tag}"), NSHARD,
-                           timeout=3000 if tier == "thorough" else 900)
-        summ = absorb(ck, "bridge", rows)
-        total += summ.get("cases", 0)
-        exhaustive = exhaustive and res["finished"] and summ.get("cases", 0) == res["counts"]["CASE"]
-        ck.notes.append(f"bridge {label}: behaviours={summ.get('cases')} packets={summ.get('steps')} "
-                        f"panics={summ.get('panics')} ext-drift={summ.get('drift')}")
-        with open(cases) as f:
-            for i, line in enumerate(f):
-                # non-trivial = some source sends at least two packets (every continuity rule needs a pair)
-                if '"first":false' in line:
-                    nontrivial.add(hashlib.blake2b(line.encode(), digest_size=8).digest())
-                if i % 9973 == 5 and len(ck.cov["samples"]) < 10:
-                    e = json.loads(line)
-                    ck.cov["samples"].append({"sub": "bridge", "cfg": e["cfg"], "steps": e["steps"]})
-        if tier == "thorough":
-            os.remove(cases)
-    return total, exhaustive
+        n, ex = consume(ck, tier, j, nontrivial)
+        total += n
+        if not j["consts"].get("sim"):
+            exhaustive = exhaustive and ex
+    ck.cov["traces_validated_against_impl"] = total
+    ck.cov["evaluations"] = total
+    ck.cov["distinct_nontrivial"] = len(nontrivial)
+    ck.cov["exhaustive"] = bool(exhaustive)
+    ck.cov["rule"] = (
+        "demux: every (registry state, inbound packet) edge of the bounded Demux model (registrations by SSRC / RID / "
+        "MID / payload-type list / single payload type / provisional, listener channel closed, clear_listeners; packet = "
+        "SSRC x PT x RID? x MID?) is executed on a fresh RtpTransport by replaying a shortest history that reaches the "
+        "state; in addition every transition that forgets registry content and every packet a branch took is followed "
+        "by all probe packets, and random deep histories (TLC -simulate) are replayed with all their out-edges; the set of "
+        "listener channels holding the packet afterwards must be one of the outcomes the statement allows. bridge: every "
+        "bounded behaviour of Bridge.tla (rule tables x interleaved sources x timestamp-step alphabet incl. the 900000 / "
+        "2^31 boundaries and u32/u16 wrap) is pushed through a real bridge and the datagrams read at the target's peer "
+        "socket are compared with the model (SSRC, PT, sequence, timestamp). non-trivial = the packet meets at least one "
+        "registration (demux) / some source sends at least two packets (bridge); counted by hashing (cfg, history, action)")
+    ck.assumptions += [
+        "bounded: listeners/SSRCs/PTs/MIDs/RIDs and history length as listed in tlc_runs; larger registries are not explored",
+        "exhaustive refers to the bounded G-edge / G-bounded runs; the simulation passes are random samples (seeded)",
+        "RtpTransport.receive is called sequentially (one socket read loop per connection); no concurrent registration",
+        "clear RTP mode (no SRTP session, srtp_required = false); the SRTP gate is property C14",
+        "listener channels are drained after every step: the 'channel full' drop is not exercised in the edge cover",
+        "demux: 'nothing delivered' is read from the listener channels right after the awaited receive() returns (no timeout)",
+        "bridge: output observed on loopback UDP; a sentinel datagram through the same socket pair delimits each behaviour",
+    ]
+    ck.finish()
 
 
 def replay(path):
@@ -313,6 +326,7 @@ def replay(path):
     ep = os.path.join(ck.dir, "replay_one.ndjson")
     vlib.write_ndjson(ep, [case])
     rows = run_sharded(sub, ep, os.path.join(ck.dir, "replay_one_out"), 1, timeout=300)
+    os.remove(ep)
     summ = absorb(ck, sub, rows)
     ck.cov.update(states=1, transitions=1, traces_validated_against_impl=summ.get("edges", summ.get("cases", 0)),
                   samples=[case])
@@ -321,15 +335,45 @@ def replay(path):
 
 def selftest():
     """Negative controls that need no mutation of /repo:
-    (i) the model with the pinned code's former deviation switched on violates the C19 rules in TLC;
-    (ii) corrupting the expectation of generated edges is reported by the replayer."""
+    (i) the Demux model with each former deviation of the pinned code switched on violates the C19 rules in TLC;
+    (ii) corrupting the expectation of generated cases is reported by the replayer (demux and bridge)."""
     ok = True
-    c = DEMUX_CFG["quick"][0][1]
-    cfg = os.path.join(vlib.SPEC, "MC_Demux_selftest.gen.cfg")
-    write_demux_cfg(cfg, c, emit=False, deviations='{"ClearKeepsMid", "ProvisionalOnAmbiguousPt"}')
-    res = vlib.tlc("MC_Demux", os.path.basename(cfg), timeout=600, workers=4)
-    os.remove(cfg)
-    ok1 = any("ChainRespected" in e or "AmbiguousPtDropped" in e for e in res["errors"])
-    print("selftest: deviation-on Demux model violates ChainRespected/AmbiguousPtDropped:", ok1)
-    ok = ok and ok1
+    c = dict(DEMUX_CFG["quick"][0][1])
+    for dev, props in (('{"ProvisionalOnAmbiguousPt"}', ("ChainRespected", "AmbiguousPtDropped")),
+                       ('{"ClearKeepsMid"}', ("OnlyRegistered",))):
+        cfg = os.path.join(vlib.SPEC, f"MC_Demux_{PID}_selftest.gen.cfg")
+        write_demux_cfg(cfg, c, emit=False, deviations=dev)
+        res = vlib.tlc("MC_Demux", os.path.basename(cfg), timeout=600, workers=4, tag="MC_Demux_C19_selftest")
+        os.remove(cfg)
+        hit = any(any(p in e for p in props) for e in res["errors"])
+        print(f"selftest: Demux model with Deviations = {dev} violates {'/'.join(props)}: {hit}")
+        ok = ok and hit
+    vlib.build_harness([BIN])
+    d = vlib.outdir(PID)
+    # (ii) demux: claim that an SSRC-bound packet must be dropped
+    edge = {"cfg": {"rid": True, "mid": True}, "pre": [{"op": "ssrc", "l": 1, "s": 1}],
+            "act": {"op": "pkt", "s": 1, "pt": 1, "rid": 0, "mid": 0},
+            "exp": {"delivered": {"allowed": [[]], "rule": "ChainRespected"}},
+            "ext": {"delivered": [], "bound": [True, False]},
+            "cls": {"by": "ssrc", "closedHit": False, "holders": 0, "provs": 0, "identified": True, "unreg": False}}
+    ep = os.path.join(d, "selftest_edge.ndjson")
+    vlib.write_ndjson(ep, [edge])
+    rows = run_sharded("demux", ep, os.path.join(d, "selftest_edge_out"), 1, timeout=120)
+    hit = any(r.get("type") == "divergence" and r.get("rule") == "ChainRespected" for r in rows)
+    print("selftest: corrupted demux expectation is reported:", hit)
+    ok = ok and hit
+    # (ii) bridge: claim a wrong second sequence number
+    case = {"cfg": {"rules": [{"m": -1, "fixOn": True, "fix": 43981, "off": 0, "pt": -1, "mid": 0}], "fixed": True,
+                    "seq0": 65535, "off0": 0, "pinOn": False, "pin": 0, "strip": False},
+            "steps": [{"src": 100, "pt": 0, "ts": 1000, "exp": {"ssrc": 43981, "pt": 0, "seq": 65535, "ts": 1000,
+                                                                 "first": True, "cont": "first", "mid": 0, "tsRule": "EXT"}},
+                      {"src": 100, "pt": 0, "ts": 1160, "exp": {"ssrc": 43981, "pt": 0, "seq": 1, "ts": 1160,
+                                                                 "first": False, "cont": "cont", "mid": 0,
+                                                                 "tsRule": "TsPreserve"}}]}
+    vlib.write_ndjson(ep, [case])
+    rows = run_sharded("bridge", ep, os.path.join(d, "selftest_case_out"), 1, timeout=120)
+    os.remove(ep)
+    hit = any(r.get("type") == "divergence" and r.get("rule") == "SeqConsecutive" for r in rows)
+    print("selftest: corrupted bridge expectation is reported:", hit)
+    ok = ok and hit
     raise SystemExit(0 if ok else 2)
